@@ -126,7 +126,7 @@ ParseTB(txt) == IF txt = <<111, 110>> THEN Okv(S_true) ELSE IF txt = <<111, 102,
 ---------------------------------------------------------------------------
 (* scalar conversion by element type.  ftab = float/duration table             *)
 ConvScalar(t, base, txt, ftab) ==
-  CASE t = "string" -> Okv(txt)
+  CASE t \in {"string", "cc"} -> Okv(txt)          \* cc: the harness' string type with completions
     [] t = "bool" -> ParseBoolT(txt)
     [] IsSignedInt(t) -> IF base >= 2 /\ base <= 36 THEN ParseSigned(txt, base, IntBits(t)) ELSE Unspec
     [] IsUnsignedInt(t) -> IF base >= 2 /\ base <= 36 THEN ParseUnsigned(txt, base, IntBits(t)) ELSE Unspec
